@@ -593,21 +593,36 @@ std::string Circuit::report() const {
 void Circuit::placeGlobal(const ColoquinteParameters &params,
                           const std::optional<PlacementCallback> &callback) {
   isInUse_ = true;
-  GlobalPlacer::place(*this, params, callback);
+  try {
+    GlobalPlacer::place(*this, params, callback);
+  } catch (...) {
+    isInUse_ = false;
+    throw;
+  }
   isInUse_ = false;
 }
 
 void Circuit::legalize(const ColoquinteParameters &params,
                        const std::optional<PlacementCallback> &callback) {
   isInUse_ = true;
-  DetailedPlacer::legalize(*this, params, callback);
+  try {
+    DetailedPlacer::legalize(*this, params, callback);
+  } catch (...) {
+    isInUse_ = false;
+    throw;
+  }
   isInUse_ = false;
 }
 
 void Circuit::placeDetailed(const ColoquinteParameters &params,
                             const std::optional<PlacementCallback> &callback) {
   isInUse_ = true;
-  DetailedPlacer::place(*this, params, callback);
+  try {
+    DetailedPlacer::place(*this, params, callback);
+  } catch (...) {
+    isInUse_ = false;
+    throw;
+  }
   isInUse_ = false;
 }
 
